@@ -77,6 +77,9 @@ inline void generate(Workload& w, bool cd, int order, int nthreads, int focus, i
   w.exercise_known = vsim_param_fixed("exercise_known", 0) != 0;
   int big = tier() ? 3000 : 200;
   int n = (int)wl_range(1, wl_chance(15) ? big : 60);
+  // sometimes one root pushes more than fastPushBackLimit (64) children BEFORE its last acquire and aborts afterwards
+  bool bigfan = focus != 7 && wl_chance(8);
+  if (bigfan) n = (int)wl_range(130, 260);
   if (force_items) n = force_items;
   int nroots = (int)wl_range(1, std::max(1, std::min(n, wl_chance(50) ? 8 : n)));
   w.nobj = (int)wl_range(focus == 2 ? 2 : 1, focus == 2 ? 6 : 12);
@@ -105,6 +108,7 @@ inline void generate(Workload& w, bool cd, int order, int nthreads, int focus, i
     if (it.depth >= maxdepth) continue;
     int fan = (int)wl_range(0, maxfan);
     if (wl_chance(3) && tier()) fan = 70;          // beyond fastPushBackLimit
+    if (bigfan && i == 0) fan = (int)wl_range(66, 110);
     for (int c = 0; c < fan && next < n; c++) {
       if (wl_chance(10)) { next++; if (next >= n) break; }  // leave holes: ids that are never work
       Item& ch = w.items[next];
@@ -120,6 +124,7 @@ inline void generate(Workload& w, bool cd, int order, int nthreads, int focus, i
     int d = it.parent >= 0 ? (int)wl_range(order == ORD_PRIO_ASC_STRICT ? 1 : 0, dense ? 1 : 6) : 0;
     it.prio = order == ORD_PRIO_DESC ? std::max(0, base - d) : std::min(MAXLEVEL - 1, base + d);
     if (order == ORD_BSP) it.prio = it.depth;
+    if (order == ORD_NONE && !dense) it.prio = (int)wl_range(0, 24);   // schedulers without an order promise get arbitrary (non-monotone) priorities
   }
   // closure
   for (int r : w.roots) w.items[r].in_closure = true;
@@ -130,6 +135,14 @@ inline void generate(Workload& w, bool cd, int order, int nthreads, int focus, i
     Item& it = w.items[i];
     int nacq = cd ? (int)wl_range(0, std::min(w.nobj, 4)) : (int)wl_range(0, 2);
     size_t nextchild = 0;
+    if (bigfan && i == 0) {
+      // all pushes first, then the (aborting) last acquire
+      if (wl_chance(50)) it.prog.push_back(Step{0, (unsigned char)(wl_range(0, w.nobj - 1))});
+      while (nextchild < it.children.size()) it.prog.push_back(Step{1, (unsigned char)(nextchild++)});
+      it.prog.push_back(Step{0, (unsigned char)(wl_range(0, std::min(w.nobj - 1, 1)))});
+      if (cd) it.vol_aborts = (int)wl_range(1, 2);
+      continue;
+    }
     int hot = (int)wl_range(0, w.nobj - 1);
     for (int a = 0; a < nacq; a++) {
       int o = wl_chance(conflict_pct) ? (int)wl_range(0, std::min(w.nobj - 1, 1)) : (int)wl_range(0, w.nobj - 1);
@@ -167,7 +180,11 @@ inline void body(int id, Ctx& ctx) {
   // C06(e): what the pusher (or the master, for initial items) wrote must be visible
   long pv = w.payload[id];
   if (pv != 7000 + id) vsim_fail("c06.push-pop.value", "item %d popped with payload %ld, pusher wrote %d", id, pv, 7000 + id);
-  if (!w.cd) { obs_add(&it.commits, 1); }  // without conflict detection an iteration cannot abort: it commits by starting
+  if (!w.cd) {   // without conflict detection an iteration cannot abort: it commits by starting
+    obs_add(&it.commits, 1);
+    for (int c : it.children) w.payload[c] = 7000 + c;   // pushes may be flushed before the operator ends (fastPushBack): publish first
+    if (w.order != ORD_NONE) for (int c : it.children) obs_add(&w.pending[level_of(w.items[c])], 1);   // same reason: children exist from now on
+  }
   // per-iteration allocations
   char* blocks[3] = {nullptr, nullptr, nullptr}; size_t bsz[3] = {0, 0, 0};
   if constexpr (PIA) {
@@ -207,10 +224,10 @@ inline void body(int id, Ctx& ctx) {
   obs_add(&w.committed, 1L);
   w.commit_log.emplace_back(it.commit_seq, id);
   if (w.order != ORD_NONE) {
-    for (int c : it.children) obs_add(&w.pending[level_of(w.items[c])], 1);
+    if (w.cd) for (int c : it.children) obs_add(&w.pending[level_of(w.items[c])], 1);
     if (obs_add(&w.pending[level_of(it)], -1) <= 0) vsim_fail("c08.ledger", "level ledger underflow at item %d", id);
   }
-  for (int c : it.children) w.payload[c] = 7000 + c;   // plain write published by the push
+  if (w.cd) for (int c : it.children) w.payload[c] = 7000 + c;   // plain write published by the push
   // C02: exclusive ownership of everything acquired (stamps), non-commutative update
   long token = (long)id * 16 + attempt + 1;
   for (int k = 0; k < nown; k++) {
